@@ -13,17 +13,18 @@ import (
 
 // Profile selects a sub-language.
 type Profile struct {
-	Common      bool // the subset both backends define (C04): boolean operands for and/or/not, no collection printing, same-kind equality …
-	NoFloats    bool
-	MaxDepth    int  // expression depth
-	Unicode     bool // strings beyond ASCII
-	HTMLChars   bool // strings with & < > " '
-	BigInts     bool // 32-bit and 53-bit integer literals
-	Directives  bool
-	Messages    bool
-	Custom      bool // functions and print directives registered by the application (verifFn, verifBang)
-	RawBytes    bool // template text with bytes that are not valid UTF-8 (a file in a legacy 8-bit encoding)
-	CustomAlias bool // the application also registered its string function under a second name (aTag)
+	Common       bool // the subset both backends define (C04): boolean operands for and/or/not, no collection printing, same-kind equality …
+	NoFloats     bool
+	MaxDepth     int  // expression depth
+	Unicode      bool // strings beyond ASCII
+	HTMLChars    bool // strings with & < > " '
+	BigInts      bool // 32-bit and 53-bit integer literals
+	Directives   bool
+	Messages     bool
+	Custom       bool // functions and print directives registered by the application (verifFn, verifBang)
+	NestedPlural bool // a plural may stand in a case of another plural
+	RawBytes     bool // template text with bytes that are not valid UTF-8 (a file in a legacy 8-bit encoding)
+	CustomAlias  bool // the application also registered its string function under a second name (aTag)
 }
 
 // Ty is the generator's static type of an expression or variable.
